@@ -12,7 +12,8 @@ SPEC = dict(
          'KSI_SignatureVerifier_verify). Every execution is compared with an independent reference interpreter: sequence of invoked rules '
          '(an invocation after the stopping point or a missing invocation is a violation), return code, absence of a result on internal '
          'error, finalResult (result/error code and identity of the last rule and last policy evaluated), policyResults length and '
-         'entries. Distinct = distinct tree/chain text; non-trivial = every case (each reaches oracle comparisons).',
+         'entries. Distinct = distinct tree/chain text; non-trivial = every case (each reaches oracle comparisons). '
+         'Further: internal errors include the statuses 5, 1, 0xff and -3; refused KSI_Policy_setFallback calls leave the chain as it is.',
     bounds=dict(
         quick='all rule trees with <= 5 basic rules and nesting depth <= 2 (86627 trees) x all reachable assignments of 5 outcomes; '
               'all trees with <= 3 rules, depth <= 2 (811) x 6 outcomes (incl. result left unwritten); fallback chains of length 0..2 '
